@@ -6,7 +6,7 @@
    dispatch, so arity/type errors are still modelled for them. *)
 From Coq Require Import ZArith List Bool.
 From Coq Require Import Floats.SpecFloat.
-From Rscel Require Import Base.Prims Base.F64 Base.Text Base.FloatText Model.Strings Model.Value Model.Ops Model.Dispatch.
+From Rscel Require Import Base.Prims Base.F64 Base.Text Base.FloatText Model.Strings Model.Time Model.Value Model.Ops Model.Dispatch.
 Import ListNotations.
 Import Coq.Strings.String.StringSyntax.
 Open Scope Z_scope.
@@ -396,8 +396,22 @@ Definition is_default_func (name : bytes) : bool := mem_bytes name default_func_
 (** Extension point filled in by Model/Time.v-style refinements: the time
     accessors are [RUnmod] here after dispatch. *)
 Definition time_arms (name : bytes) : list arm :=
-  [arm_this PTime (fun _ => unmod); arm_this1 PTime PString (fun _ _ => unmod)] ++
-  (if mem_bytes name dur_accessors then [arm_this PDur (fun _ => unmod)] else []).
+  match taccess_of name with
+  | None => []
+  | Some a =>
+      [arm_this PTime (fun t => match t with VTime ns => ok (VInt (time_field a false ns)) | _ => bad end);
+       arm_this1 PTime PString (fun t z =>
+         match t, z with
+         | VTime ns, VString zone =>
+             match fixed_offset_hours zone with
+             | Some h => ok (VInt (time_field a true (ns + h * 3600 * 1000000000)))
+             | None => unmod                         (* needs the time-zone database (or is an unknown zone) *)
+             end
+         | _, _ => bad end)] ++
+      (match dur_field a 0 with
+       | Some _ => [arm_this PDur (fun d => match d with VDur ns => match dur_field a ns with Some v => ok (VInt v) | None => bad end | _ => bad end)]
+       | None => [] end)
+  end.
 
 Definition call_default (now : option Z) (name : bytes) (this : value) (args : list value) : option (res value) :=
   if negb (is_default_func name) then None
